@@ -222,3 +222,47 @@ def ex_check(ctx, own, profile, nscripts, nsteps, rule, assumptions, module="Gen
                           "step per line, redo inverse, scalar values only, ghost stacks consistent); every line's expected "
                           "state (text, current line, output, registers, solid marks, status) was compared with the traced binary"}
     return ctx.finish("model_checking", cov, assumptions)
+
+
+def undo_traces(ctx):
+    """C04 at editor level: behaviours with undo / redo; the text after every u / redo (and after every other
+    line, so that the model stays in step) is compared with Ex.tla, whose log is Lbuf.tla's"""
+    scripts = gen_scripts(ctx, "Gen_Ex", "lines", 160 if ctx.quick else 3000, 40, extra_env={"UNDOHEAVY": "1"})
+    results = run_scripts(ctx, scripts)
+    st = judge(ctx, results, "C04", describe_default)
+    undo_cmds = sum(1 for sc, r in zip(scripts, results) for s in sc["steps"][:r["checked"]]
+                    if any(k in ("u", "redo") for k in s["kinds"]))
+    return {"traces": len(results), "commands": st["commands"], "undo_redo_commands": undo_cmds, "stats": st,
+            "samples": [{"seed": scripts[0]["seed"], "script": [txt(s["typed"]) for s in scripts[0]["steps"][:10]]}]}
+
+
+def utf8_traces(ctx):
+    """C16, editing clause: every line of every recorded state of substitute / line-command behaviours over
+    multi-byte text is valid UTF-8"""
+    scripts = gen_scripts(ctx, "Gen_Ex", "sub", 120 if ctx.quick else 3000, 30)
+    ctx.build()
+    bad = 0
+    states = 0
+
+    def one(sc):
+        typed = b"".join(txt(s["typed"]).encode("utf-8") for s in sc["steps"]) + b"q!\n"
+        recs, rc, err, to, work = run_vi(ctx, ["-s", "-e"], typed)
+        shutil.rmtree(work, True)
+        out = []
+        for r in recs:
+            if r.get("ev") == "ex" and r.get("lvl") == 0:
+                for h in r["bufs"][0]["lb"].get("lines", []):
+                    try:
+                        bytes.fromhex(h).decode("utf-8")
+                    except UnicodeDecodeError:
+                        out.append((bytes.fromhex(r["ln"]).decode("utf-8", "replace"), h))
+        return len([r for r in recs if r.get("ev") == "ex"]), out
+    with ThreadPoolExecutor(NCPU) as ex:
+        for sc, (n, out) in zip(scripts, ex.map(one, scripts)):
+            states += n
+            for cmd, h in out[:1]:
+                bad += 1
+                ctx.violation("after %r the buffer holds a line that is not valid UTF-8: %s" % (cmd, h),
+                              {"seed": sc["seed"], "command": cmd, "line_hex": h,
+                               "script": [txt(s["typed"]) for s in sc["steps"]]}, {"kind": "invalid-utf8"})
+    return {"traces": len(scripts), "states_checked": states, "invalid": bad}
